@@ -13,6 +13,7 @@
 package c14
 
 import (
+	"bufio"
 	"bytes"
 	"encoding/base64"
 	"encoding/json"
@@ -48,11 +49,17 @@ const (
 	clauseData  = "reports an error or returns only data wholly present in the prefix (complete mesh / complete .splat records); no placeholder or missing elements"
 )
 
-// Reader behaviours the truncated stream is delivered with. All three are legal io.Readers.
-var modes = []string{"bytes", "onebyte", "dataerr"}
+// Reader behaviours the truncated stream is delivered with. All are legal io.Readers.
+// "bufio": a *bufio.Reader (what ply.Load / stl.Load hand to the decoders; concrete-type fast paths
+// such as Peek/ReadString are only reachable this way); "bufio16": the same with a 16-byte buffer.
+var modes = []string{"bytes", "onebyte", "dataerr", "bufio", "bufio16"}
 
 func reader(mode string, data []byte) io.Reader {
 	switch mode {
+	case "bufio":
+		return bufio.NewReader(bytes.NewReader(data))
+	case "bufio16":
+		return bufio.NewReaderSize(bytes.NewReader(data), 16)
 	case "onebyte": // every Read returns at most one byte
 		return iotest.OneByteReader(bytes.NewReader(data))
 	case "dataerr": // the last bytes arrive together with io.EOF
